@@ -347,7 +347,8 @@ struct Gen {
     auto good = liveSlots(preferred);
     auto any = liveSlots([](const Item&) { return true; });
     if (any.empty()) return -1;
-    if (good.empty() || c.chance(1, 12)) return any[static_cast<size_t>(idx(static_cast<int>(any.size())))];
+    if (c.chance(1, 12)) return any[static_cast<size_t>(idx(static_cast<int>(any.size())))];
+    if (good.empty()) return -1;
     return good[static_cast<size_t>(idx(static_cast<int>(good.size())))];
   }
   static bool isBase(const Item& it) { return it.kind == BASE || it.kind == CONST; }
@@ -426,6 +427,10 @@ struct Gen {
   }
 
   void step() {
+    for (int tries = 0; tries < 4; ++tries) if (tryStep()) return;
+    Op op; op.k = RECALC; ops.push_back(op);
+  }
+  bool tryStep() {  // false: the drawn mutator has nothing to act on (nothing was appended)
     const int k = c.ipick(0, 99);
     Op op;
     if (k < 16) {
@@ -441,12 +446,14 @@ struct Gen {
       }
     } else if (k < 50) {
       const int s = pickTarget(isBase);
-      if (s >= 0) { setText(s, false); return; }
-      op.k = RECALC;
+      if (s < 0) return false;
+      setText(s, false);
+      return true;
     } else if (k < 60) {
       const int s = pickTarget([](const Item& it) { return it.kind == STRUCT; });
-      if (s >= 0) { setStruct(s, false); return; }
-      op.k = RECALC;
+      if (s < 0) return false;
+      setStruct(s, false);
+      return true;
     } else if (k < 65) {
       op.k = RESET_DATA; op.slot = pickTarget([](const Item& it) { return isBase(it) || it.kind == STRUCT; });
       if (op.slot >= 0 && isBase(items[static_cast<size_t>(op.slot)])) items[static_cast<size_t>(op.slot)].keys.clear();
@@ -469,7 +476,7 @@ struct Gen {
       if (op.slot >= 0) items[static_cast<size_t>(op.slot)].live = false;
     } else if (k < 95) {
       const int kk = c.ipick(0, 9);
-      if (kk < 8) { create(kk < 1 ? BASE : kk < 2 ? STRUCT : derivedKind(), false); return; }
+      if (kk < 8) { create(kk < 1 ? BASE : kk < 2 ? STRUCT : derivedKind(), false); return true; }
       op.k = INSERT_COPY2;
       op.created.push_back(makeNew(derivedKind(), false));
       op.created.push_back(makeNew(derivedKind(), false));
@@ -479,8 +486,9 @@ struct Gen {
       op.k = kinds[c.ipick(0, 6)];
       op.name = "bogus"; op.text = {{1, "bogus"}}; op.textMode = "bogus"; op.data = dvSet({dvVal(1)}); op.def = "X1";
     }
-    if (!op.bogus && op.slot < 0 && op.k != RECALC) op.k = RECALC;  // nothing left to act on
+    if (!op.bogus && op.slot < 0 && op.created.empty() && op.k != RECALC) return false;
     ops.push_back(op);
+    return true;
   }
 
   void generate() {
@@ -806,7 +814,15 @@ Verdict propHistory(Ctx& c) {
         accepted = m.Values().SetBasicText(*target, t);
         break;
       }
-      case SET_STRUCT: accepted = m.Values().SetStructureData(*target, dvData(op.data)); break;
+      case SET_STRUCT:
+        accepted = m.Values().SetStructureData(*target, dvData(op.data));
+        if (!accepted && !op.bogus && std::getenv("C11_DEBUG") != nullptr) {
+          std::cerr << "REFUSED " << g.showOp(op) << " on " << r.nameOf(*target) << " parse=" << static_cast<int>(m.GetParse(*target).status) << " bases:";
+          for (const auto u : m.List()) if (ccl::semantic::IsBaseSet(m.GetRS(u).type)) { std::cerr << " " << m.GetRS(u).alias << "="; if (const auto d = m.Values().SDataFor(u)) std::cerr << canon(*d); }
+          if (const auto d = m.Values().SDataFor(*target)) std::cerr << " current=" << canon(*d);
+          std::cerr << std::endl;
+        }
+        break;
       case RESET_DATA: m.Values().ResetDataFor(*target); accepted = present && ccl::semantic::IsBaseNotion(m.GetRS(*target).type); break;
       case SET_EXPR: accepted = m.SetExpressionFor(*target, op.def); break;
       case ERASE: accepted = m.Erase(*target); break;
@@ -840,6 +856,7 @@ Verdict propHistory(Ctx& c) {
       if (op.k == ERASE) labels.insert("erase-with-dependants");
     }
     if (!accepted) labels.insert(std::string("refused:") + kOpName[op.k]);
+    if (!op.setup) c.count(std::string(accepted ? "accepted:" : "refused:") + kOpName[op.k] + (op.bogus ? "(unknown uid)" : ""));
 
     if (op.setup && i + 1 < nSetup) continue;  // nothing is calculated during the setup: one check at its end
     const auto viol = r.check(op.k == RECALC);
@@ -875,7 +892,7 @@ Verdict propHistory(Ctx& c) {
 
 int main(int argc, char** argv) {
   std::vector<pbt::Prop> props;
-  props.push_back({"history", propHistory, 600, 6000, false, false,
+  props.push_back({"history", propHistory, 1500, 6000, false, false,
                    "histories of 4-30 operations on one RSModel, fresh-model recalculation after every operation; non-trivial = an accepted data/definition edit or erase while a transitive dependant holds a calculated value"});
   return pbt::main(argc, argv, "C11", props);
 }
